@@ -320,12 +320,22 @@ def run(rep: Report, tier: str) -> None:
 	oi = c.method('on_integer')
 	ox = X(oi)
 	ints = [cl for cl in nodes(ox, ast.Call) if unparse(cl.func) == 'int']
+	hex_tests: list = []
 	if not ints:
 		r4.skip('integer', oi.where, 'on_integer no longer calls int(...)')
 	for cl in ints:
 		base = next((kw.value for kw in cl.keywords if kw.arg == 'base'), cl.args[1] if len(cl.args) > 1 else None)
 		fs = facts(ox, cl)
-		hexfact = [p_ for t, p_ in fs if ".startswith('0x')" in t or '.startswith("0x")' in t]
+		hexfact = []
+		for a, p_ in atoms(ox, cl):
+			a = deref(ox, a)
+			if isinstance(a, ast.Call) and isinstance(a.func, ast.Attribute) and a.func.attr == 'startswith' and a.args:
+				arg = a.args[0]
+				prefixes = [const_str(e) for e in (arg.elts if isinstance(arg, ast.Tuple) else [arg])]
+				if all(isinstance(x, str) and x.lower() == '0x' for x in prefixes):
+					hexfact.append(p_)
+					folded = any(isinstance(x, ast.Call) and isinstance(x.func, ast.Attribute) and x.func.attr in ('lower', 'casefold') for x in ast.walk(a.func.value))
+					hex_tests.append((cl, folded or {'0x', '0X'} <= set(prefixes), unparse(a)))
 		if base is not None:
 			try:
 				bv = ast.literal_eval(base)
@@ -391,9 +401,17 @@ def run(rep: Report, tier: str) -> None:
 				same = x == owner or any(p_ and isinstance(a, ast.Compare) and len(a.ops) == 1 and isinstance(a.ops[0], ast.Eq) and {unparse(a.left), unparse(a.comparators[0])} == {f'{x}[0]', unparse(delim)} for a, p_ in atoms(cx, js))
 				r4.check(same, f'concat:requoted:{x}', (EVAL, js.lineno), f'_cat writes the body of `{x}` verbatim between the quotes of `{owner}`: when the two literals use different quote characters the body may contain the new delimiter unescaped (`"a" + \'say "hi"\'` folds to `"asay "hi""`, not a literal of the Python value)', unparse(js)[:120])
 	r4.check(any(raised_name(n) == 'Errors.OperationNotAllowed' for b in closure_fi(fc) for n in nodes(b, ast.Raise)), 'cast:other-refused', fc.where, 'calls other than the scalar casts are no longer refused')
+	# the grammar admits the hexadecimal prefix in both cases (HEX_NUMBER matches `0X1F`): a case-sensitive prefix test sends `0X1F` to int(text, 10),
+	# whose ValueError surfaces as Errors.Fatal — neither the value CPython computes nor the refusal the property names
 	hexpat = gm.term_patterns.get('HEX_NUMBER')
-	if hexpat is not None and 'i' in getattr(hexpat, 'flags', ()):
-		r4.note('the grammar terminal HEX_NUMBER is case-insensitive: `0X1F` is decoded with int(tokens) and refused through ValueError -> Errors.Fatal (not a wrong value)')
+	import re as _re
+	try:
+		admits_upper = hexpat is not None and _re.fullmatch(hexpat.to_regexp(), '0X1F') is not None
+	except Exception:
+		admits_upper = False
+	if admits_upper:
+		for cl, both, txt in hex_tests:
+			r4.check(both, 'integer:hex-prefix-case', (EVAL, cl.lineno), f'on_integer recognises a hexadecimal literal by `{txt}` (lower-case prefix only) while the grammar terminal HEX_NUMBER admits `0X` as well: `A = 0X1F` is decoded in base 10, the ValueError ends the run with Errors.Fatal instead of the value 31', txt)
 	rule_literalise(rep, idx)
 
 
